@@ -30,15 +30,20 @@ func init() {
 		om := c.Deviate(1 << uint(nn+1))
 		rq := c.Deviate(nn + 1)
 		ps := c.Deviate(nn + 1)
-		mc := c.Choose(5) // Execute, Execute+error, CommandHandler, CommandHandler+error, completion mode
+		hm := c.Deviate(1 << uint(nn))
+		extra := c.Deviate(3) // 1: IgnoreUnknown set as well; 2: the parser's flag sits in a group added after the commands and after a parse selecting each of them
+		mc := c.Choose(5)     // Execute, Execute+error, CommandHandler, CommandHandler+error, completion mode
 		mode, inject := mc/2, mc%2 == 1
-		key := fmt.Sprintf("s%d/o%d/r%d/p%d", si, om, rq, ps)
+		key := fmt.Sprintf("s%d/o%d/r%d/p%d/h%d/e%d", si, om, rq, ps, hm, extra)
 		td, seen := c09Cache[key]
 		if !seen {
 			if len(c09Cache) > 200 {
 				c09Cache = map[string]*treeDecl{}
 			}
-			td = buildTree(par, 0, om, 0, false, true, rq, ps)
+			td = buildTree(par, 0, om, 0, false, true, rq, ps, hm, extra == 2)
+			if td != nil && extra == 1 {
+				td.d.Options = flags.HelpFlag | flags.PassDoubleDash | flags.IgnoreUnknown
+			}
 			c09Cache[key] = td
 		}
 		if td == nil {
@@ -67,7 +72,24 @@ func init() {
 		}
 		res := ref.Run(cfg, argv)
 		recordStates(c, key, res, nil)
-		b := td.d.BuildAPI()
+		var b *decl.Built
+		if extra == 2 {
+			b = td.d.BuildAPIWith(func(hb *decl.Built) {
+				for _, cm := range td.cmds {
+					var path []string
+					for x := cm; x != nil && x.Parent != nil; x = x.Parent {
+						path = append([]string{x.Name}, path...)
+					}
+					hb.Parser.ParseArgs(path)
+				}
+				for _, fc := range hb.Cmds {
+					fc.Active = nil
+				}
+				rezero(hb)
+			})
+		} else {
+			b = td.d.BuildAPI()
+		}
 		if b.Err != nil {
 			c.Fail("setup-error", b.Err.Error())
 			return
@@ -164,7 +186,7 @@ func init() {
 		Body:       body,
 		DevBound:   func(th bool) int { return 1 },
 		Rule: "every command tree with <= 3 (quick) / <= 4 (thorough) commands and depth <= 3 with an executable command at every node, HelpFlag set; one deviation from the plain tree at a time: " +
-			"subcommands-optional on any subset of nodes incl. the parser, a required option on any node, required positionals on any node; " +
+			"subcommands-optional on any subset of nodes incl. the parser, a required option on any node, required positionals on any node, any subset of commands hidden, IgnoreUnknown set in addition, the parser's flag in a group added after the commands and after a parse that selected each of them; " +
 			"x {Execute, CommandHandler, completion mode} x {command succeeds, command returns an error} x every sequence of <= 3 tokens (<= 4 on trees of <= 2 commands quick / <= 3 commands thorough) over command names, every node's flag and the fault tokens " +
 			"{unknown option, argument to a flag, --help, -h, unknown word, a word and a number (the required positional is an int on some nodes: conversion faults, also after the -- terminator)}; this contains every single fault at every position of every valid vector of that length; oracle = CLM verdict vs call log",
 		Assumptions:  []string{"when no command is active there is nothing to Execute; a CommandHandler is still called once with a nil command (as its documentation says)"},
